@@ -1,26 +1,26 @@
 #!/bin/sh
 # tools/evalseed.sh <ID> <A|B> : confirm a sub-agent's change in a scratch worktree, then run our check on it
-ID="$1"; V="$2"; OUT=/tmp/wt/$ID.out; EV=/tmp/wt/eval_$ID$V
+ID="$1"; V="$2"; B="${SEEDBASE:-/tmp/wt}"; OUT=$B/$ID.out; EV=$B/eval_$ID$V
 cd /verif || exit 2
 [ -f "$OUT/$V.diff" ] || { echo "$ID$V: no diff"; exit 2; }
 rm -rf "$EV"; git -C /repo worktree prune; git -C /repo worktree add -q --detach "$EV" HEAD || exit 2
 RES="$ID$V:"
 if ! git -C "$EV" apply --3way "$OUT/$V.diff" 2>/dev/null && ! git -C "$EV" apply "$OUT/$V.diff" 2>/dev/null; then
   echo "$RES patch does not apply to current HEAD"; git -C /repo worktree remove --force "$EV"; exit 3; fi
-git -C "$EV" diff HEAD > /tmp/wt/$ID$V.rebased.diff
-( cd "$EV" && /venv/bin/python -m pytest -q -p no:cacheprovider darr/tests -q 2>&1 | tail -1 ) > /tmp/wt/$ID$V.tests
-TESTS=$(cat /tmp/wt/$ID$V.tests)
-( cd /tmp && PYTHONPATH="$EV" timeout 300 /venv/bin/python "$OUT/${V}_demo.py" >/tmp/wt/$ID$V.demo_with 2>&1 ); DW=$?
+git -C "$EV" diff HEAD > $B/$ID$V.rebased.diff
+( cd "$EV" && /venv/bin/python -m pytest -q -p no:cacheprovider darr/tests -q 2>&1 | tail -1 ) > $B/$ID$V.tests
+TESTS=$(cat $B/$ID$V.tests)
+( cd /tmp && PYTHONPATH="$EV" timeout 300 /venv/bin/python "$OUT/${V}_demo.py" >$B/$ID$V.demo_with 2>&1 ); DW=$?
 git -C "$EV" checkout -q -- . ; git -C "$EV" reset -q --hard HEAD
-( cd /tmp && PYTHONPATH="$EV" timeout 300 /venv/bin/python "$OUT/${V}_demo.py" >/tmp/wt/$ID$V.demo_without 2>&1 ); DWO=$?
+( cd /tmp && PYTHONPATH="$EV" timeout 300 /venv/bin/python "$OUT/${V}_demo.py" >$B/$ID$V.demo_without 2>&1 ); DWO=$?
 git -C /repo worktree remove --force "$EV"
 RES="$RES tests=[$TESTS] demo_with=$DW demo_without=$DWO"
 # our check
 git -C /repo diff --quiet || { echo "$RES /repo not clean"; exit 2; }
-git -C /repo apply /tmp/wt/$ID$V.rebased.diff || { echo "$RES rebased patch does not apply to /repo"; exit 3; }
+git -C /repo apply $B/$ID$V.rebased.diff || { echo "$RES rebased patch does not apply to /repo"; exit 3; }
 CHK="${3:-$ID}"
-./check "$CHK" --tier quick > /tmp/wt/$ID$V.check.log 2>&1; RC=$?
+./check "$CHK" --tier quick > $B/$ID$V.check.log 2>&1; RC=$?
 git -C /repo checkout -- .
-NV=$(grep -c '^VIOLATION' /tmp/wt/$ID$V.check.log)
-echo "$RES check=$CHK rc=$RC violations=$NV $(grep '^SUMMARY' /tmp/wt/$ID$V.check.log | cut -d' ' -f4-12)"
-grep -A2 '^VIOLATION' /tmp/wt/$ID$V.check.log | grep 'what=' | sed 's/.*what=//' | cut -c1-160 | sort | uniq -c | sort -rn | head -3
+NV=$(grep -c '^VIOLATION' $B/$ID$V.check.log)
+echo "$RES check=$CHK rc=$RC violations=$NV $(grep '^SUMMARY' $B/$ID$V.check.log | cut -d' ' -f4-12)"
+grep -A2 '^VIOLATION' $B/$ID$V.check.log | grep 'what=' | sed 's/.*what=//' | cut -c1-160 | sort | uniq -c | sort -rn | head -3
